@@ -83,7 +83,7 @@ PROPERTIES = {
         "rule": ("fault scenarios on two real systems: cut after every byte offset of a 3-frame stream (ReconnectLimit 0 exhaustively; limit 2 sampled in the quick "
                  "tier, exhaustively in the thorough tier), cut inside the handshake, refused dials, reset-after-accept, peer restart, injected undecodable / "
                  "invalid-length frames, unencodable and > 4 MiB messages, late delivery on an old connection, two peers (one refusing, one healthy with steady "
-                 "traffic; monitors c14-no-dead-letter-after-limit with a real-time bound of max(8 s, 10 x nominal back-off sum), c14-retry-count, "
+                 "traffic; monitors c14-no-dead-letter-after-limit with a real-time bound of max(15 s, 10 x nominal back-off sum), c14-retry-count, "
                  "c14-healthy-peer-disturbed); one case = one scenario: the Enqueue calls with "
                  "the environment's answers, against the observed events, per-connection byte counts and receiver observations. non-trivial = at least one "
                  "failed attempt or cut; distinct = distinct scenarios"),
